@@ -74,6 +74,12 @@ type SChild struct {
 	Back *SParent `json:"back"`
 }
 
+// a struct whose field holds a map-based object (the sub-tree below it is made of plain maps)
+type SLink struct {
+	Name string         `json:"name"`
+	Link map[string]any `json:"link"`
+}
+
 // Shape describes one struct type of the menu.
 type Shape struct {
 	Name string
@@ -103,7 +109,7 @@ var Shapes = map[string]Shape{}
 func init() {
 	for _, s := range []Shape{shapeOf[SA]("SA"), shapeOf[SP]("SP"), shapeOf[SN]("SN"), shapeOf[SNest]("SNest"),
 		shapeOf[SColl]("SColl"), shapeOf[STag]("STag"), shapeOf[SEmpty]("SEmpty"), shapeOf[SMid]("SMid"), shapeOf[SDeep]("SDeep"),
-		shapeOf[SNode]("SNode"), shapeOf[SParent]("SParent"), shapeOf[SChild]("SChild")} {
+		shapeOf[SNode]("SNode"), shapeOf[SParent]("SParent"), shapeOf[SChild]("SChild"), shapeOf[SLink]("SLink")} {
 		Shapes[s.Name] = s
 		p := s
 		p.Name = s.Name + "*"
